@@ -409,7 +409,7 @@ func emit(rep *Report, level, tier string, seed int, wall float64, outDir string
 	}
 	nUndRes := nUnd
 	for _, c := range controls {
-		if c.Status == "missed" || c.Status == "base-not-silent" {
+		if c.Status == "missed" || c.Status == "base-not-silent" || c.Status == "false-alarm" {
 			nUnd++
 		}
 	}
